@@ -20,6 +20,7 @@ import (
 	"path/filepath"
 	"sort"
 	"strings"
+	"syscall"
 
 	"github.com/safing/portbase/database/record"
 	"github.com/safing/portbase/formats/dsd"
@@ -154,9 +155,9 @@ func (sb *sandbox) rel(p string) string {
 type place int
 
 const (
-	inside place = iota // strictly below the root
-	atRoot              // the root directory itself
-	escaping            // anything else
+	inside   place = iota // strictly below the root
+	atRoot                // the root directory itself
+	escaping              // anything else
 )
 
 func (p place) String() string { return [...]string{"inside", "root", "escaping"}[p] }
@@ -182,22 +183,42 @@ type entry struct {
 	size int64
 	sum  [sha256.Size]byte
 	link string
+	// identity of the file state; a file whose inode, size and change time are
+	// those of the previous snapshot has the previous content (every write
+	// updates the change time, which cannot be set by a program).
+	ino   uint64
+	ctime int64
 }
 
 type snapshot map[string]entry
 
-func takeSnapshot(t fataler, top string) snapshot {
+// takeSnapshot records names, modes, sizes, content hashes and link targets of
+// everything below top. prev (may be nil) is used to avoid re-reading files
+// whose inode, size and change time are unchanged.
+func takeSnapshot(t fataler, top string, prev ...snapshot) snapshot {
+	var old snapshot
+	if len(prev) > 0 {
+		old = prev[0]
+	}
 	s := snapshot{}
 	err := filepath.Walk(top, func(p string, info fs.FileInfo, err error) error {
 		if err != nil {
 			return err
 		}
 		e := entry{mode: info.Mode()}
+		if st, ok := info.Sys().(*syscall.Stat_t); ok {
+			e.ino = st.Ino
+			e.ctime = st.Ctim.Nano()
+		}
 		switch {
 		case info.Mode()&fs.ModeSymlink != 0:
 			e.link, _ = os.Readlink(p)
 		case info.Mode().IsRegular():
 			e.size = info.Size()
+			if o, ok := old[p]; ok && o.ino == e.ino && o.ctime == e.ctime && o.size == e.size && o.mode == e.mode && e.ino != 0 {
+				e.sum = o.sum
+				break
+			}
 			data, rerr := os.ReadFile(p)
 			if rerr != nil {
 				return rerr
